@@ -6,13 +6,14 @@
 (* property is checked on the model (invariants) and every distinct state  *)
 (* is emitted as a history for replay on the real library.                 *)
 (***************************************************************************)
-EXTENDS BitmapStr, Json, TLC
+EXTENDS BitmapStr, Json, TLC, Randomization
 
 CONSTANTS Lo, Hi,      \* block map (sequences): block p = Lo[p]..Hi[p]; the tail starts at Hi[NB]+1
           Steer,       \* set of <<pad, via>>: how the recorder builds the bitmap (representation steering, never judged)
           MaxLen,      \* bound on the history length
           Chain,       \* FALSE: set -> asprintf/sscanf -> one call (exhaustive);  TRUE: free interleaving (simulation)
-          Mode         \* "full": every call; "light": set -> asprintf -> reparse only (large families)
+          Mode,        \* "full": every call; "light": set -> asprintf -> reparse only (large families)
+          SimPick      \* simulation only: how many values of the family are offered to Set at each step
 VARIABLES reg, txt, steer, known, out, hist     \* txt: the canonical texts of reg (derived, memoised)
 
 NB == Len(Lo)
@@ -48,7 +49,7 @@ Asprintf(f) ==
   /\ hist' = Append(hist, [op |-> "asprintf", fmt |-> f])
   /\ UNCHANGED <<reg, txt, steer>>
 
-\* hwloc_bitmap_[list_|taskset_]snprintf(buf, buflen) for every length up to one more than needed
+\* hwloc_bitmap_[list_|taskset_]snprintf(buf, buflen) for every length up to one more than needed, and a generous one
 Snprintf(f, buflen) ==
   /\ More /\ f \in known /\ Mode = "full"
   /\ LET r == SnprintfDo(txt[f], buflen) IN
@@ -92,15 +93,22 @@ SscanfVariant(f, style) ==
   /\ known' = {}
   /\ UNCHANGED steer
 
+AllStyles(f) == Styles(f) \cup {"canon"}
+Lens(f) == (0..(Len(txt[f]) + 1)) \cup {Len(txt[f]) + 33}
+
 \* (guards are repeated outside the quantifiers so that TLC does not enumerate the family in states where nothing is enabled)
-Next == /\ More
-        /\ \/ (Chain \/ hist = <<>>) /\ \E v \in Family, st \in Steer : Set(v, st)
-           \/ hist # <<>> /\ \E f \in Fmts :
-                 \/ Asprintf(f)
-                 \/ f \in known /\ Mode = "full" /\ \E k \in 0..(Len(txt[f]) + 1) : Snprintf(f, k)
-                 \/ SnprintfNull(f)
-                 \/ Reparse(f)
-                 \/ (Chain \/ Len(hist) = 1) /\ Mode = "full" /\ \E style \in Styles(f) \cup {"canon"} : SscanfVariant(f, style)
+\* In simulation TLC generates every successor and evaluates the invariants on all of them before picking one, so
+\* (a) Set is offered a random sample of the family only (and Snprintf a sample of the lengths), (b) a finished history is printed when TLC expands the
+\* state it actually reached (the last disjunct), not from an invariant.
+Next == \/ /\ More
+           /\ \/ (Chain \/ hist = <<>>) /\ \E v \in (IF Chain THEN RandomSubset(SimPick, Family) ELSE Family), st \in (IF Chain THEN RandomSubset(1, Steer) ELSE Steer) : Set(v, st)
+              \/ hist # <<>> /\ \E f \in Fmts :
+                    \/ Asprintf(f)
+                    \/ f \in known /\ Mode = "full" /\ \E k \in (IF Chain THEN RandomSubset(2, Lens(f)) ELSE Lens(f)) : Snprintf(f, k)
+                    \/ SnprintfNull(f)
+                    \/ Reparse(f)
+                    \/ (Chain \/ Len(hist) = 1) /\ Mode = "full" /\ \E style \in (IF Chain THEN RandomSubset(1, AllStyles(f)) ELSE AllStyles(f)) : SscanfVariant(f, style)
+        \/ Chain /\ ~More /\ PrintT(<<"SIM", ToJson(hist)>>) /\ FALSE /\ UNCHANGED <<reg, txt, steer, known, out, hist>>
 
 Spec == Init /\ [][Next]_<<reg, txt, steer, known, out, hist>>
 
@@ -108,7 +116,7 @@ View == <<reg, steer, known, out>>
 
 (* ---- the property on the model ---- *)
 TypeOK == ValOK(reg) /\ (out.op = "set" => txt = Texts(reg)) /\ known \subseteq Fmts /\ steer \in Steer \cup {<<0, 0>>}
-Laws == out.op = "set" => RoundTripLaw(reg)
+Laws == out.op = "set" => RoundTripLaw(reg) /\ (Mode = "full" => VariantLaw(reg))
 CallOK ==
   /\ out.op = "asprintf" => out.ret = Len(out.text) /\ OutOK(out.fmt, out.text, reg)
   /\ out.op \in {"snprintf", "snprintf0"} =>
@@ -117,5 +125,4 @@ CallOK ==
                           /\ out.ret = 0 /\ SameSet(out.v, out.was) /\ SameSet(reg, out.was)
 
 EmitState == PrintT(<<"STATE", ToJson(hist)>>)
-EmitSim   == (Len(hist) = MaxLen) => PrintT(<<"SIM", ToJson(hist)>>)
 =============================================================================
